@@ -306,4 +306,9 @@ theorem updater_walk_status (P : Params) : ∀ (steps : List Step) (chain : List
       | [], ho, _ => simp [UpdaterOrder] at ho
       | [_], ho, _ => simp [UpdaterOrder] at ho
 
+
+/-- an updater-order walk with a reorganisation: attach 1, 2, detach 2, attach 3 on top of 1 -/
+example : UpdaterOrder [.push ⟨1, 0, 0, []⟩, .push ⟨2, 1, 1, []⟩, .pop, .push ⟨3, 1, 1, []⟩] [] := by
+  simp [UpdaterOrder]
+
 end BytomModel.Props.C24
